@@ -194,6 +194,11 @@ func (p *Program) eachInstrRegion(fn *ssa.Function, f func(*ssa.Function, ssa.In
 	}
 }
 
+// eachInstrR is eachInstr over fn's region (fn, its closures and the transparent helpers they call).
+func (p *Program) eachInstrR(fn *ssa.Function, f func(ssa.Instruction)) {
+	p.eachInstrRegion(fn, func(_ *ssa.Function, in ssa.Instruction) { f(in) })
+}
+
 // regionOwners returns the anchors (or non-transparent functions) from which fn
 // is reached through transparent helpers only; fn itself if it is not transparent.
 func (p *Program) regionOwners(fn *ssa.Function) []*ssa.Function {
@@ -326,17 +331,54 @@ func (p *Program) callMay(c ssa.CallInstruction, pred func(ssa.Instruction) bool
 	return found
 }
 
-// guardedInEveryContext: in every calling context of block b some guard satisfies pred.
+// guardedInEveryContext: block b runs only when a fact satisfying pred holds: every path from the function's
+// entry to b takes a branch edge that establishes such a fact (one dominating test, or one of several tests
+// whose arms were merged, as in `case "*", "":`), or - for a transparent helper - this holds at every call site.
 func (p *Program) guardedInEveryContext(b *ssa.BasicBlock, pred func(guardFact) bool) bool {
-	for _, ctx := range p.guardContexts(b) {
-		ok := false
-		for _, g := range ctx {
-			if pred(g) {
-				ok = true
-				break
+	return p.guardedOnAllPaths(b, pred, 0)
+}
+
+func (p *Program) guardedOnAllPaths(b *ssa.BasicBlock, pred func(guardFact) bool, depth int) bool {
+	fn := b.Parent()
+	if len(fn.Blocks) == 0 {
+		return false
+	}
+	goodEdge := func(from *ssa.BasicBlock, succ int) bool {
+		ifi := blockIf(from)
+		if ifi == nil || from.Succs[0] == from.Succs[1] {
+			return false
+		}
+		fs, impossible := p.factsWhen(ifi.Cond, succ == 0)
+		if impossible {
+			return true // the edge cannot be taken
+		}
+		for _, f := range fs {
+			if f.If == nil {
+				f.If = ifi
+			}
+			if pred(f) {
+				return true
 			}
 		}
-		if !ok {
+		return false
+	}
+	if b != fn.Blocks[0] {
+		q := pathQuery{fn: fn, target: func(x ssa.Instruction) bool { return x.Block() == b },
+			edgeOK: func(from *ssa.BasicBlock, succ int) bool { return !goodEdge(from, succ) }}
+		if w, _ := q.find(); w == nil {
+			return true
+		}
+	}
+	// not established inside the function: look at the call sites of a transparent helper
+	if fn.Parent() != nil || !p.isTransparent(fn) || depth > 3 {
+		return false
+	}
+	sites := p.helpers().sites[fn]
+	if len(sites) == 0 {
+		return false
+	}
+	for _, s := range sites {
+		if !p.guardedOnAllPaths(s.Block(), pred, depth+1) {
 			return false
 		}
 	}
@@ -561,6 +603,15 @@ func (p *Program) staticReach(fn *ssa.Function) []*ssa.Function {
 		}
 	}
 	add(fn)
+	return out
+}
+
+// regionWrites: the non-fresh protected writes of fn and of the transparent helpers it calls.
+func (p *Program) regionWrites(e *Effects, fn *ssa.Function) []Write {
+	var out []Write
+	for _, g := range p.region(fn) {
+		out = append(out, e.OwnWrites(g)...)
+	}
 	return out
 }
 
